@@ -64,4 +64,5 @@ def jobs(tier):
     out += matrix_jobs('C15', 'm1', tier)
     out += matrix_jobs('C15', 'm2', tier)
     out += matrix_jobs('C15', 'm3', tier)
+    out += matrix_jobs('C15', 'm4', tier)
     return flat(out)
